@@ -323,6 +323,33 @@ def resultNull (_op : Op) : Bool := false
 /-- `p_rwlock_new`: NULL iff allocation failed or `pthread_rwlock_init` returned non-zero -/
 def newOk (allocOk : Bool) (initCode : Int) : Bool := allocOk && initCode == 0
 
+/-- abstract pthread rwlock: who holds it (trusted machine) -/
+structure PState where
+  readers : List Tid := []      -- read holders (a multiset: POSIX read locks may be recursive)
+  writer : Option Tid := none
+  deriving Repr, DecidableEq
+
+/-- trusted contract of `pthread_rwlock_*` (POSIX): a call by thread `t` returns a code; code 0 is
+    returned only when the mode is grantable (resp. the caller holds the lock) and then the holder
+    set changes accordingly; any other code leaves the lock unchanged.  Blocking calls simply are
+    not enabled until they can return. -/
+inductive PStep : PState → Tid → Call → Int → PState → Prop
+  | rd_ok (s : PState) (t : Tid) : s.writer = none → PStep s t .rdlock 0 { s with readers := t :: s.readers }
+  | tryrd_ok (s : PState) (t : Tid) : s.writer = none → PStep s t .tryrdlock 0 { s with readers := t :: s.readers }
+  | wr_ok (s : PState) (t : Tid) : s.writer = none → s.readers = [] → PStep s t .wrlock 0 { s with writer := some t }
+  | trywr_ok (s : PState) (t : Tid) : s.writer = none → s.readers = [] → PStep s t .trywrlock 0 { s with writer := some t }
+  | unlock_w (s : PState) (t : Tid) : s.writer = some t → PStep s t .unlock 0 { s with writer := none }
+  | unlock_r (s : PState) (t : Tid) : t ∈ s.readers → PStep s t .unlock 0 { s with readers := s.readers.erase t }
+  | fail (s : PState) (t : Tid) (c : Call) (code : Int) : code ≠ 0 → PStep s t c code s
+
+/-- `p_rwlock_<op> (lock)` called by thread `t`: the pthread call is made, its code is mapped -/
+def ApiStep (s : PState) (t : Tid) (op : Op) (ret : Bool) (s' : PState) : Prop :=
+  ∃ code, PStep s t (callOf op) code s' ∧ ret = result op code
+
+inductive PReach : PState → Prop
+  | init : PReach {}
+  | step {s s' : PState} {t : Tid} {op : Op} {ret : Bool} : PReach s → ApiStep s t op ret s' → PReach s'
+
 end Posix
 
 end PV.RWLock
